@@ -19,6 +19,7 @@ THEOREMS = [
     "BeyondVerif.C15.setFrame_unknown_atomic",
     "BeyondVerif.C15.setFrameBasic_error_atomic",
     "BeyondVerif.C15.setFrameBasic_error_keeps_labels",
+    "BeyondVerif.C15.setFrame_error_atomic_partial",
     "BeyondVerif.C15.covSetFrame_error_atomic",
     "BeyondVerif.C15.setFrame_error_cases",
     "BeyondVerif.C15.copy_receiver_unchanged",
@@ -57,6 +58,7 @@ THEOREMS = [
     "BeyondVerif.C15W.as_orbit_cov_separate",
     "BeyondVerif.C15W.pickle_gives_working_object",
     "BeyondVerif.C15W.deepcopy_shares_data",
+    "BeyondVerif.C15W.frame_change_fails_after_state_moved",
     "BeyondVerif.C15W.cov_from_cov_has_own_buffer",
     "BeyondVerif.C15W.lazily_created_maneuver_list_not_shared",
     "BeyondVerif.C15W.failed_frame_change_from_keplerian",
@@ -72,10 +74,10 @@ LEVEL_TEXT = ("Lean theorems over an object-graph (heap) model of StateVector/Or
               "(setFrameBasic_error_atomic, setFrameBasic_error_keeps_labels); StateVector->Orbit->StateVector gives back the coordinates, form, frame and every immutable _data entry; name/alias/index resolution decided over the tables "
               "regenerated from beyond.orbits.forms on every run. The model agrees exactly (object-identity partition incl. memory owners of all buffers and cloned Frame objects, labels, error kinds, bit-identical buffers) with the "
               "real classes on random operation sequences.")
-LEVEL_NOTE = ("shared maneuver objects (kept on purpose by the library) and copy.deepcopy falling through to ndarray's protocol are open findings; the maneuver objects are the one exception in the separation theorems; that the "
+LEVEL_NOTE = ("shared maneuver objects (kept on purpose by the library), copy.deepcopy falling through to ndarray's protocol and the frame setter leaving the state moved when its covariance cannot follow are open findings; the maneuver objects are the one exception in the separation theorems; that the "
               "content of copied containers equals the original's, and the pickle round trip as an isomorphism, are compared exactly by the correspondence but not proved; the history theorem covers in-place operations on the NEW "
               "object (the other direction, and setCov / Cov-from-Cov inside a history, are compared by the correspondence and judged by the history oracle only); a covariance failure after a successful state-vector frame change "
-              "is not proved unreachable; heap model hand-written, tied by the correspondence run; Lean kernel + propext/Classical.choice/Quot.sound")
+              "is reachable and is an open finding (frame setter not atomic when the covariance that follows cannot be converted; the atomicity theorem for the whole setter is _partial); heap model hand-written, tied by the correspondence run; Lean kernel + propext/Classical.choice/Quot.sound")
 TECHNIQUE = "Lean 4 proof over an object-graph (heap) model + kernel decide on regenerated name/alias tables; exact model/implementation correspondence"
 TRUSTED = [
     "harness/props/C15.py extract: Form.param_names, Form.alt, forms._cache, _cache_param_names, the frame registry and the property names of the classes, read from live objects (cross-checked against the Form(...) literals in forms.py) -> Generated/FormTables.lean",
@@ -107,7 +109,8 @@ NOT_COVERED = [
 ]
 OPEN = [
     "content equality of copies: that a copied / unpickled container holds the same values as the original (an isomorphism of object graphs) is compared exactly by the correspondence, proved only for immutable entries (as_orbit_as_statevector_id) and values (copy_separate_depth1, attachCov_result)",
-    "setFrame_error_cases third case (covariance part fails after the state vector was changed; the covariance is then untouched, covSetFrame_error_atomic): not proved unreachable from constructor-built states; no occurrence in correspondence or oracle runs",
+    "setFrame_error_cases third case (covariance part fails after the state vector was changed; the covariance is then untouched, covSetFrame_error_atomic) IS reachable: open finding C15-frame-change-not-atomic-with-cov "
+    "(counter-witness frame_change_fails_after_state_moved; the atomicity theorem is setFrame_error_atomic_partial: states whose covariance does not have to follow)",
     "WfM is not proved to be preserved by the operations (it is a hypothesis of copy_separate / asOrbit_separate / asSV_separate); hence histories that copy a copy, or attach a covariance to the copy (setCov / covFrom run copy() inside), are outside copy_then_mutations_invisible",
     "the mirror direction of copy_then_mutations_invisible (in-place operations on the ORIGINAL never reach a cell of the copy) needs the separation invariant phrased for an arbitrary region instead of 'addresses below the old length'; single-step facts: copy_shares_only_maneuver_objects + the *_frame theorems",
     "copyFrame_receiver_unchanged now carries the hypothesis WfM h (the covariance that follows the frame change writes its buffer cell, which is new because the copy is separated)",
@@ -831,7 +834,8 @@ class eop_error_policy:
 import contextlib
 
 FAIL_CASES = [("form", "unknown-form", True), ("frame", "unknown-frame", True), ("frame", "to-hill", False), ("frame", "from-hill", False),
-              ("frame", "unreachable-centre", False), ("frame", "eop-error", False), ("cov.frame", "cov-unknown-frame", True), ("cov.frame", "cov-to-hill", True),
+              ("frame", "unreachable-centre", False), ("frame", "eop-error", False), ("frame", "eop-error-stale-parent", False),
+              ("cov.frame", "cov-unknown-frame", True), ("cov.frame", "cov-to-hill", True),
               ("cov.frame", "cov-eop-error", True)]
 
 
@@ -852,6 +856,10 @@ def failing_assignment(sv, tag):
         return isolated_frame(other), lambda: setattr(sv, "frame", "Isolated")
     if tag == "eop-error":
         return eop_error_policy(), lambda: setattr(sv, "frame", eop_target)
+    if tag == "eop-error-stale-parent":
+        # the state (now in TOD) can be rotated to MOD with the values cached on its Date; its covariance, attached while the state was
+        # in EME2000, has to go through EME2000 and cannot: the part of the assignment that works must not stay
+        return eop_error_policy(), lambda: setattr(sv, "frame", "MOD")
     if tag == "cov-unknown-frame":
         return contextlib.nullcontext(), lambda: setattr(sv.cov, "frame", "NoSuchFrame")
     if tag == "cov-to-hill":
@@ -869,13 +877,17 @@ def check_failed_change(out, rng, spec):
     for attr, tag, exact in FAIL_CASES:
         if tag.startswith("cov-") and not spec.get("cov"):
             continue
-        sv = make_state(rng, spec)
+        if tag == "eop-error-stale-parent":
+            if not spec.get("cov") or spec.get("covframe"):
+                continue
+            sv = make_state(rng, dict(spec, frame="EME2000"))
+            sv.frame = "TOD"
+        else:
+            sv = make_state(rng, spec)
         if tag == "from-hill":
             sv._data["frame"] = get_frame("Hill")
             if sv._data.get("cov") is not None:
                 sv._data["cov"]._data["frame"] = sv._data["frame"]
-        if tag == "cov-eop-error" and not hasattr(sv.cov.frame, "name"):
-            pass
         before = snap_full(sv)
         ids = (id(sv._data["form"]), id(sv._data["frame"]))
         how0, c0 = attempt(lambda: cart_state(sv))
@@ -885,8 +897,8 @@ def check_failed_change(out, rng, spec):
         out.count(key=(tag, spec["form"], spec["frame"], spec["cov"], spec["orbit"]), kind="failed-change", case=tag, form=spec["form"])
         inp = {"spec": spec, "case": tag}
         if how == "ok":
-            if tag == "cov-eop-error":
-                out.tally("cov-eop-error-not-needed")     # e.g. local orientation -> frame of the state: no date-dependent rotation involved
+            if tag in ("cov-eop-error", "eop-error-stale-parent"):
+                out.tally(f"{tag}-not-needed")     # e.g. local orientation -> frame of the state: no date-dependent rotation involved
                 continue
             out.fail(f"no-error-{tag}", f"{attr} assignment ({tag}) did not raise", inp)
             continue
@@ -1708,11 +1720,6 @@ def rand_ops(rng, maxlen=6, dcopy=False):
             op = [name, i, str(rng.randrange(est))]
         ops.append(op)
         est += 1
-    return ops
-
-
-def fix_indices(ops):
-    """variable indices are taken modulo the number of variables that exist when the op runs: done by a dry run on the real code"""
     return ops
 
 
